@@ -33,8 +33,9 @@ from py_gql.lang.parser import parse_type  # noqa: E402
 SENTENCES = tuple(GR.sentence_texts())
 
 DOCS = tuple((e, t) for e, t in SEEDS if e.startswith("document")) + tuple(("document_ts_fragvars", s) for s in C18_SOURCES) + \
-    tuple(("document", t) for t, _ in G.TEMPLATES) + tuple(("document_ts_fragvars", s) for s in EXTRA) + \
-    tuple((e if e in ("value", "type") else "document_ts_fragvars", t) for e, t in SENTENCES)
+    tuple(("document", t) for t, _ in G.TEMPLATES[:20]) + tuple(("document_ts_fragvars", s) for s in EXTRA) + \
+    tuple((e if e in ("value", "type") else "document_ts_fragvars", t) for e, t in SENTENCES) + \
+    tuple(("document", t) for t, _ in G.TEMPLATES[20:])          # append-only: recorded witnesses index into DOCS
 
 
 def strip_loc(d):
@@ -157,6 +158,72 @@ def _quoted_cases():
     return [{"s": x} for x in ("", "a", "😀", "\ud83d", " \u0085 ", '"', "\\", "\n\r\t\b\f", "\x00\x1f\x7f", "é" * 3, "a\"b\\c/d")]
 
 
+# ---- a string keeps its value wherever it is printed: characters x context (nesting depth, executable / type-system position) x spelling x indent
+STRING_CHARS = ("a", " ", "\n", "\t", '"', "\\", "\u2028", "\u2029", "\x85", "\x0b", "\x0c", "\x1c", "\x1e", "\r", "\u00e9", "\U0001F600", "#", ",", "\ufeff", "\x7f")
+STRING_CONTEXTS = (          # the placeholder string "PH" is replaced in the parsed tree
+    ("document", '{ f(a: "PH") }'), ("document", '{ a { b { c { f(a: ["PH"], o: {k: "PH"}) } } } }'), ("document", 'query ($v: String = "PH") { f(a: $v) }'),
+    ("document", '{ ... on T { f @d(x: "PH") } } fragment F on T { g(a: "PH") }'), ("document_ts", 'type T { f(a: String = "PH"): Int @d(x: "PH") }'),
+    ("document_ts", 'input I { f: [String] = ["PH"] } enum E { X @deprecated(reason: "PH") }'), ("document_ts", 'extend type T @d(x: {k: ["PH"]}) { g: Int }'),
+    ("document_ts", '"PH" type T { "PH" f("PH" a: Int): Int } "PH" enum E { "PH" X } "PH" directive @d("PH" x: Int) on FIELD'),
+    ("document_ts", 'schema @d(x: "PH") { query: Q } "PH" scalar S "PH" union U = A | B "PH" input I { "PH" f: Int } "PH" interface N { "PH" id: ID }'),
+    ("value", '{k: ["PH", {j: "PH"}]}'),
+)
+
+
+def put_strings(node, value, block):
+    n = 0
+    if isinstance(node, A.StringValue) and node.value == "PH":
+        node.value, node.block = value, block
+        n += 1
+    for slot in getattr(node, "__slots__", ()):
+        v = getattr(node, slot, None)
+        if isinstance(v, A.Node):
+            n += put_strings(v, value, block)
+        elif isinstance(v, list):
+            for x in v:
+                if isinstance(x, A.Node):
+                    n += put_strings(x, value, block)
+    return n
+
+
+def values_only(d):
+    """tree as a dict without positions and without the quoted / block flag (a spelling, not content)"""
+    if isinstance(d, dict):
+        return {k: values_only(v) for k, v in d.items() if k not in ("loc", "block")}
+    if isinstance(d, list):
+        return [values_only(x) for x in d]
+    return d
+
+
+def _string_in_context(c1: int, c2: int, c3: int, ctx: int, block: bool, indent: int) -> bool:
+    """
+    pre: 0 <= c1 < len(STRING_CHARS) and -1 <= c2 < len(STRING_CHARS) and -1 <= c3 < len(STRING_CHARS) and (c3 == -1 or c2 >= 0)
+    pre: 0 <= ctx < len(STRING_CONTEXTS) and 0 <= indent < len(INDENTS)
+    pre: thorough() or c3 == -1 or (c1 == 0 and c3 == 0)
+    pre: shard_of(c1)
+    post: _
+    """
+    chars = [pick(c1, STRING_CHARS)] + [STRING_CHARS[concrete_int(c, -1, len(STRING_CHARS) - 1)] for c in (c2, c3) if concrete_int(c, -1, len(STRING_CHARS) - 1) >= 0]
+    entry, text = pick(ctx, STRING_CONTEXTS)
+    BL = True if block else False
+    IND = pick(indent, INDENTS)
+    with untraced():
+        value = "".join(chars)
+        if BL and not (lexable_block(value) and RL.block_string_value(value) == value):
+            return result(True, False)          # not a value the parser can produce from a block string
+        tree = parse_entry(entry, text)
+        if put_strings(tree, value, BL) == 0:
+            return result(False, True)
+        printed = print_ast(tree, indent=IND)
+        try:
+            back = parse_entry(entry, printed)
+        except Exception:  # noqa
+            return result(False, True)          # the printed text must be accepted by the parser
+        a, b = values_only(strip_loc(tree.to_dict())), values_only(strip_loc(back.to_dict()))
+        ok = a == b and print_ast(back, indent=IND) == printed
+    return result(ok, True)
+
+
 CONDITIONS = [
     Cond(
         name="print_document", fn=_print_document, quick=100, thorough=300, per_path=60, shards_quick=16, shards_thorough=16,
@@ -164,6 +231,14 @@ CONDITIONS = [
               "astral characters, every escape, descriptions on fields, arguments, enum values, input fields) x 5 indent settings: print deterministic, re-parse equal up to positions, re-print identical" % len(DOCS),
         symbolic={"doc": "choice: document", "indent": "choice: indent setting"},
         witness={"doc": 0, "indent": 0},
+    ),
+    Cond(
+        name="string_in_context", fn=_string_in_context, quick=200, thorough=900, per_path=60, shards_quick=len(STRING_CHARS), shards_thorough=len(STRING_CHARS),
+        bound="strings of 1..3 characters from a %d-character alphabet (letters, blank, LF, CR, tab, quote, backslash, U+2028, U+2029, U+0085, VT, FF, FS, RS, DEL, BOM, '#', ',', BMP and astral non-ASCII; quick: 1..2 characters "
+              "plus a..a triples) placed as quoted or block string in %d contexts (argument at depth 1 and 4, list / object member, variable default, directive argument on field / type / schema, SDL default, deprecation "
+              "reason, description of every describable definition, bare value) x 5 indents: the printed text parses, gives the same tree (string values compared exactly), and re-prints identically" % (len(STRING_CHARS), len(STRING_CONTEXTS)),
+        symbolic={"c1,c2,c3": "choice: characters", "ctx": "choice: context", "block": "choice: spelling", "indent": "choice"},
+        witness={"c1": 0, "c2": 6, "c3": -1, "ctx": 1, "block": False, "indent": 0},
     ),
     Cond(
         name="print_block_string", fn=_print_block_string, quick=150, thorough=900, per_path=30, shards_quick=8, shards_thorough=8,
